@@ -161,8 +161,9 @@ class Contract:
         self._modifies.extend(fields)
         return self
 
-    def loop(self, ordinal, inv, hints=None, modifies=None, props=None, variant=None):
+    def loop(self, ordinal, inv, hints=None, modifies=None, props=None, variant=None, var_kinds=None):
         self.loops[ordinal] = LoopSpec(inv, hints, modifies, props, variant)
+        self.loops[ordinal].var_kinds = var_kinds
         return self
 
     def for_props(self, *ps):
